@@ -6,7 +6,7 @@ Model of the statements that change a store: `createPlan`, `dropPlan`, `insertPl
 
 The store is the *contract* of a storage driver as C01 establishes it for the in-memory driver: a map
 from names to sets of triples (by value: anchors as instants).  The WHERE pattern of CONSTRUCT is
-evaluated by the reference semantics (`BW.Spec.solutions`); blank nodes are drawn from a counter
+evaluated by the reference semantics (`BW.Spec.solutionsO`: `solutions` with object intervals bounded by bindings); blank nodes are drawn from a counter
 (`node.NewBlankNode` draws random UUIDs: assumed never to repeat nor to hit an existing node).
 -/
 import BW.Spec.Query
@@ -197,7 +197,7 @@ def instAll (hasB : Bytes → Bool) (ccs : List CClause) (rows : List Row) (next
 /-- The rows a CONSTRUCT template is instantiated on. -/
 def whereRows (st : VStore) (d : DStmt) : List Row :=
   let scan := d.inputs.flatMap fun n => (st.get n).getD []
-  (solutions scan (d.lower.map (·.nanos)) (d.upper.map (·.nanos)) d.clauses).map fun r =>
+  (solutionsO scan (d.lower.map (·.nanos)) (d.upper.map (·.nanos)) d.clauses).map fun r =>
     d.outBindings.foldl (fun out k => match r.get k with | some c => out ++ [(k, c)] | none => out) []
 
 /-- Executing a statement. -/
